@@ -16,7 +16,7 @@ FUNCTIONS = ["wannierberri.grid.tetrahedron.weights_tetra (py_func of the njit k
 BOUNDS = dict(quick=dict(corners="4 symbolic reals, all 24 input orders (der=0) / 4 orders (der 1..3), coincident and nearly coincident corners included "
                          "(the code's own 1e-12 regularisation forks)", fermi="1 symbolic Fermi level per call (2 in the band-group cases)", der="0..3, accurate and polynomial branch",
                          groups="nb=2 bands x 1 k-point, degen_thresh symbolic", parallelepiped="centre + 8 corners totally ordered (3 centre positions), 12 tetrahedra"),
-              thorough=dict(corners="all 24 orders for every der", fermi="as quick", der="0..3", groups="nb=2,3", parallelepiped="5 centre positions, 2 corner orders"))
+              thorough=dict(corners="all 24 orders for every der", fermi="as quick", der="0..3", groups="nb=2 (nb=3 did not finish within 50 min and is outside the claim)", parallelepiped="5 centre positions, 2 corner orders"))
 EXPLANATION = ("weights_tetra runs on symbolic corner energies and Fermi level; each feasible (order, regularisation, Fermi-branch) combination is a path on which z3 decides "
                "value == B-spline closed form F^(der)(ef) = sum_{e_i<=ef} c (ef-e_i)^(3-der) / prod_{j!=i}(e_j-e_i) of the regularised corners, 0<=w<=1 and w'>=0; "
                "band-group weights and the 12-tetrahedra average are compared with sums of that closed form.")
@@ -259,8 +259,6 @@ def cases(tier, seed):
                 out.append(Case(f"kernel der={der} accurate={acc} order={p}", case_kernel, dict(der=der, accurate=acc, perm=p), timeout=600 if q else 1800))
     for der in ((0, 1) if q else (0, 1, 2)):
         out.append(Case(f"groups nb=2 der={der}", case_groups, dict(nb=2, der=der), timeout=900 if q else 2400))
-    if not q:
-        out.append(Case("groups nb=3 der=0", case_groups, dict(nb=3, der=0), timeout=3000))
     for der in ((0, 1) if q else (0, 1, 2, 3)):
         for cpos in ((0, 4, 8) if q else (0, 2, 4, 6, 8)):
             for rev in ((False,) if q else (False, True)):
